@@ -15,7 +15,7 @@
    One state = one case (configuration x request); `Family` selects the family a run enumerates. *)
 EXTENDS Integers, Sequences, FiniteSets, TLC, Json
 
-CONSTANTS Family,    \* "hdr" | "path" | "redir" | "direct" | "tmo"
+CONSTANTS Family,    \* "hdr" | "path" | "redir" | "direct" | "tmo" | "pfc"
           Defects,   \* {} = intended design
           Big        \* TRUE: thorough universes
 
@@ -29,6 +29,32 @@ Max(a, b) == IF a > b THEN a ELSE b
 Op(k, v, a) == [k |-> k, v |-> v, a |-> a]
 NoLevel == [add |-> <<>>, rm |-> <<>>]
 
+(* values of additions (headerformatter.go getHeaderFormatter): a literal, or %name% naming a registered variable that is
+   resolved per request.  The menu has a request header variable (the client may or may not send x-src), a response
+   header variable (resolvable only once the upstream response, with or without x-rsrc, is there), an unknown name and a
+   literal with a lone %.  env = what the variables resolve to for the request at hand. *)
+VReq  == "%request_header_x-src%"
+VResp == "%response_header_x-rsrc%"
+VUnk  == "%nosuchvar%"
+VPct  == "5%"
+Dash  == "(dash)"      \* how the harness spells a header whose value is the text "-" (Absent is spelled "-")
+NoEnv == [src |-> Absent, rsrc |-> Absent]
+Envs  == [src : {Absent, "s"}, rsrc : {Absent, "u"}]
+(* Sem: a reference to a registered variable is replaced by its value for this request, by the empty value when the
+   variable has no value for it; everything else - unknown names included - is taken literally *)
+SemFormat(v, env) == CASE v = VReq  -> (IF env.src = Absent THEN "" ELSE env.src)
+                       [] v = VResp -> (IF env.rsrc = Absent THEN "" ELSE env.rsrc)
+                       [] OTHER -> v
+(* Impl: getHeaderFormatter (shape test, variable.Check) and variableHeaderFormatter.format (error -> "") *)
+VarShape(v)  == v \in {VReq, VResp, VUnk}
+Registered(v) == v \in {VReq, VResp}
+Trimmed(v)   == CASE v = VUnk -> "nosuchvar" [] v = VPct -> "5" [] OTHER -> v
+Lookup(v, env) == CASE v = VReq -> env.src [] v = VResp -> env.rsrc [] OTHER -> Absent
+ImplFormat(v, env) ==
+  IF VarShape(v) /\ (Registered(v) \/ "UnknownVarIsVariable" \in Defects)
+  THEN (LET x == Lookup(v, env) IN IF x = Absent THEN (IF "MissingVarDash" \in Defects THEN Dash ELSE "") ELSE x)
+  ELSE IF "PercentTrimmed" \in Defects THEN Trimmed(v) ELSE v
+
 (* the menu of one level; t tags the values with the level so that the order is visible *)
 Menu(t) ==
   { NoLevel,
@@ -38,47 +64,52 @@ Menu(t) ==
     [add |-> <<Op("x-a", t, TRUE), Op("x-a", t \o "2", TRUE)>>, rm |-> <<>>],
     [add |-> <<Op("x-a", t, FALSE)>>, rm |-> <<"x-b">>],
     [add |-> <<Op("x-a", t, TRUE)>>, rm |-> <<"x-a">>],
-    [add |-> <<Op("x-b", t, TRUE), Op("x-a", t, FALSE)>>, rm |-> <<>>] }
+    [add |-> <<Op("x-b", t, TRUE), Op("x-a", t, FALSE)>>, rm |-> <<>>],
+    [add |-> <<Op("x-a", VReq, TRUE)>>, rm |-> <<>>],
+    [add |-> <<Op("x-a", VReq, FALSE), Op("x-b", VPct, TRUE)>>, rm |-> <<>>],
+    [add |-> <<Op("x-a", VResp, TRUE)>>, rm |-> <<>>],
+    [add |-> <<Op("x-b", VUnk, TRUE), Op("x-a", t, TRUE)>>, rm |-> <<>>] }
   \cup (IF Big THEN { [add |-> <<Op("x-b", t, FALSE), Op("x-b", t \o "2", TRUE)>>, rm |-> <<"x-a">>],
                       [add |-> <<Op("x-a", t, FALSE), Op("x-a", t \o "2", FALSE)>>, rm |-> <<>>] } ELSE {})
 
 Join(old, new) == IF "AppendNoSeparator" \in Defects THEN old \o new ELSE old \o "," \o new
 
 (* Impl: header_parser.go evaluateHeaders *)
-ApplyAdd(h, op) ==
+ApplyAdd(h, op, env) ==
   LET old == h[op.k]
-      val == IF old # Absent /\ old # "" /\ op.a THEN Join(old, op.v) ELSE op.v
+      new == ImplFormat(op.v, env)
+      val == IF old # Absent /\ old # "" /\ op.a THEN Join(old, new) ELSE new
   IN [h EXCEPT ![op.k] = val]
-RECURSIVE ApplyAdds(_, _)
-ApplyAdds(h, ops) == IF ops = <<>> THEN h ELSE ApplyAdds(ApplyAdd(h, Head(ops)), Tail(ops))
+RECURSIVE ApplyAdds(_, _, _)
+ApplyAdds(h, ops, env) == IF ops = <<>> THEN h ELSE ApplyAdds(ApplyAdd(h, Head(ops), env), Tail(ops), env)
 RECURSIVE ApplyRms(_, _)
 ApplyRms(h, ks) == IF ks = <<>> THEN h ELSE ApplyRms([h EXCEPT ![Head(ks)] = Absent], Tail(ks))
-Evaluate(h, lv) == IF "RemoveBeforeAdd" \in Defects THEN ApplyAdds(ApplyRms(h, lv.rm), lv.add)
-                   ELSE ApplyRms(ApplyAdds(h, lv.add), lv.rm)
+Evaluate(h, lv, env) == IF "RemoveBeforeAdd" \in Defects THEN ApplyAdds(ApplyRms(h, lv.rm), lv.add, env)
+                        ELSE ApplyRms(ApplyAdds(h, lv.add, env), lv.rm)
 (* base_rule.go: route parser, then vHost.Finalize* = virtual host parser, then router configuration parser *)
-ImplHdr(lv, h) ==
-  IF "VhostBeforeRoute" \in Defects THEN Evaluate(Evaluate(Evaluate(h, lv.vhost), lv.route), lv.router)
-  ELSE IF "RouterBeforeVhost" \in Defects THEN Evaluate(Evaluate(Evaluate(h, lv.route), lv.router), lv.vhost)
-  ELSE Evaluate(Evaluate(Evaluate(h, lv.route), lv.vhost), lv.router)
+ImplHdr(lv, h, env) ==
+  IF "VhostBeforeRoute" \in Defects THEN Evaluate(Evaluate(Evaluate(h, lv.vhost, env), lv.route, env), lv.router, env)
+  ELSE IF "RouterBeforeVhost" \in Defects THEN Evaluate(Evaluate(Evaluate(h, lv.route, env), lv.router, env), lv.vhost, env)
+  ELSE Evaluate(Evaluate(Evaluate(h, lv.route, env), lv.vhost, env), lv.router, env)
 
 (* Sem: per header, the flat history route -> virtual host -> router (additions before removals inside a
    level); the value is the last overwrite/removal/incoming value followed by the later appends *)
-LevelEvents(lv, k) ==
+LevelEvents(lv, k, env) ==
   LET adds == SelectSeq(lv.add, LAMBDA op : op.k = k)
       rms  == SelectSeq(lv.rm, LAMBDA x : x = k)
-  IN [i \in 1..Len(adds) |-> [t |-> IF adds[i].a THEN "app" ELSE "set", v |-> adds[i].v]]
+  IN [i \in 1..Len(adds) |-> [t |-> IF adds[i].a THEN "app" ELSE "set", v |-> SemFormat(adds[i].v, env)]]
      \o [i \in 1..Len(rms) |-> [t |-> "rm", v |-> Absent]]
-Events(lv, k) == LevelEvents(lv.route, k) \o LevelEvents(lv.vhost, k) \o LevelEvents(lv.router, k)
+Events(lv, k, env) == LevelEvents(lv.route, k, env) \o LevelEvents(lv.vhost, k, env) \o LevelEvents(lv.router, k, env)
 RECURSIVE JoinAll(_, _)
 JoinAll(base, evs) == IF evs = <<>> THEN base
                       ELSE JoinAll(IF base = Absent \/ base = "" THEN Head(evs).v ELSE base \o "," \o Head(evs).v, Tail(evs))
-SemHdrKey(lv, h, k) ==
-  LET evs  == Events(lv, k)
+SemHdrKey(lv, h, k, env) ==
+  LET evs  == Events(lv, k, env)
       cuts == { i \in 1..Len(evs) : evs[i].t # "app" }
       cut  == IF cuts = {} THEN 0 ELSE CHOOSE i \in cuts : \A j \in cuts : j <= i
       base == IF cut = 0 THEN h[k] ELSE evs[cut].v
   IN JoinAll(base, SubSeq(evs, cut + 1, Len(evs)))
-SemHdr(lv, h) == [k \in Names |-> SemHdrKey(lv, h, k)]
+SemHdr(lv, h, env) == [k \in Names |-> SemHdrKey(lv, h, k, env)]
 
 HdrCases == [lv : [route : Menu("r"), vhost : Menu("v"), router : Menu("g")], hin : [Names -> {Absent, "c"}]]
 
@@ -143,11 +174,11 @@ PathHdrLevels(c) == [route |-> IF c.radd THEN [add |-> <<Op("x-a", "r.host", FAL
                      vhost |-> NoLevel, router |-> NoLevel]
 PathHdrIn(c) == [k \in Names |-> IF k = "x-a" THEN c.xa ELSE Absent]
 OrigHost == "h.local"
-SemHost(c) == LET h == SemHdr(PathHdrLevels(c), PathHdrIn(c)) IN
+SemHost(c) == LET h == SemHdr(PathHdrLevels(c), PathHdrIn(c), NoEnv) IN
               IF c.hr # "" THEN c.hr
               ELSE IF c.ahrh # "" /\ h[c.ahrh] # Absent THEN h[c.ahrh]
               ELSE OrigHost
-ImplHost(c) == LET h == ImplHdr(PathHdrLevels(c), PathHdrIn(c))
+ImplHost(c) == LET h == ImplHdr(PathHdrLevels(c), PathHdrIn(c), NoEnv)
                    h0 == PathHdrIn(c) IN
                IF "AutoHostOverHostRewrite" \in Defects /\ c.ahrh # "" /\ h[c.ahrh] # Absent THEN h[c.ahrh]
                ELSE IF c.hr # "" THEN c.hr
@@ -224,31 +255,44 @@ ImplTimeout(c) ==
       t4 == IF "TryNotDisabled" \in Defects THEN t3 ELSE IF t3 >= g4 THEN 0 ELSE t3
   IN [g |-> g4, t |-> t4]
 
+(* ------------------------------------------------------------------ per_filter_config *)
+(* route and virtual host may each carry a configuration for a named stream filter; a filter of that name reads, through
+   the matched route, the route's own value and the virtual host's own value (which of the two it prefers is its business) *)
+PfcCases == [route : {Absent, "r"}, vhost : {Absent, "v"}]
+SemPfc(c)  == [route |-> c.route, vhost |-> c.vhost]
+ImplPfc(c) == [route |-> IF "PfcRouteFallsBackToVhost" \in Defects /\ c.route = Absent THEN c.vhost ELSE c.route, vhost |-> c.vhost]
+
 (* ------------------------------------------------------------------ one state per case *)
 VARIABLE c
 Cases == CASE Family = "hdr" -> HdrCases [] Family = "path" -> PathCases [] Family = "redir" -> RedirCases
-           [] Family = "direct" -> DirectCases [] Family = "tmo" -> TmoCases
+           [] Family = "direct" -> DirectCases [] Family = "tmo" -> TmoCases [] Family = "pfc" -> PfcCases
 Init == c \in Cases
 Next == UNCHANGED c
 Spec == Init /\ [][Next]_c
 
 (* ---- properties: the implementation-shaped evaluation means what the property states ---- *)
-HdrImplIsSem   == Family = "hdr" => ImplHdr(c.lv, c.hin) = SemHdr(c.lv, c.hin)
+HdrImplIsSem   == Family = "hdr" => \A env \in Envs : ImplHdr(c.lv, c.hin, env) = SemHdr(c.lv, c.hin, env)
 (* the statement's own example: all three levels append to a header the client sent *)
 HdrLevelOrder  == (Family = "hdr" /\ c.hin["x-a"] = "c"
-                   /\ \A L \in {"route", "vhost", "router"} : Len(c.lv[L].add) = 1 /\ c.lv[L].add[1].a /\ c.lv[L].add[1].k = "x-a" /\ c.lv[L].rm = <<>>)
-                  => ImplHdr(c.lv, c.hin)["x-a"] = "c,r,v,g"
+                   /\ \A L \in {"route", "vhost", "router"} : Len(c.lv[L].add) = 1 /\ c.lv[L].add[1].a /\ c.lv[L].add[1].k = "x-a" /\ c.lv[L].rm = <<>>
+                        /\ ~VarShape(c.lv[L].add[1].v))
+                  => ImplHdr(c.lv, c.hin, NoEnv)["x-a"] = "c,r,v,g"
+(* the statement's "applied exactly" for variable values: a resolvable reference contributes the request's own value *)
+HdrVarResolved == (Family = "hdr" /\ c.lv.route = [add |-> <<Op("x-a", VReq, TRUE)>>, rm |-> <<>>] /\ c.lv.vhost = NoLevel /\ c.lv.router = NoLevel)
+                  => /\ ImplHdr(c.lv, c.hin, [src |-> "s", rsrc |-> Absent])["x-a"] = (IF c.hin["x-a"] = Absent THEN "s" ELSE "c,s")
+                     /\ ImplHdr(c.lv, c.hin, NoEnv)["x-a"] = (IF c.hin["x-a"] = Absent THEN "" ELSE "c,")
 PathImplIsSem  == Family = "path" => ImplPath(c) = SemPath(c)
 PrefixWins     == (Family = "path" /\ c.pr # <<>> /\ c.rule = "prefix") => ImplPath(c) = c.pr \o Rest(PrefixA, c.path)
 PathRuleSwapsWholePath == (Family = "path" /\ c.pr # <<>> /\ c.rule = "path") => ImplPath(c) = c.pr
 HostImplIsSem  == Family = "path" => ImplHost(c) = SemHost(c)
 RedirImplIsSem == Family = "redir" => ImplLocation(c) = SemLocation(c) /\ ImplRedirCode(c) = SemRedirCode(c)
+PfcImplIsSem   == Family = "pfc" => ImplPfc(c) = SemPfc(c)
 TmoImplIsSem   == Family = "tmo" => ImplTimeout(c) = SemTimeout(c)
 TryBelowGlobal == Family = "tmo" => LET r == ImplTimeout(c) IN r.g > 0 /\ (r.t = 0 \/ r.t < r.g)
 
 (* one CASE line per case, consumed by the Go driver (run with -workers 1) *)
 EmitCase == /\ PrintT(<<"CASE", ToJson([fam |-> Family, c |-> c])>>)
             /\ (Family = "path" /\ c = CHOOSE x \in Cases : TRUE) =>
-                 PrintT(<<"CASE", ToJson([fam |-> "rxmenu", paths |-> Paths, retryrw |-> RetryRewrites, retrypath |-> PathA,
+                 PrintT(<<"CASE", ToJson([fam |-> "rxmenu", envs |-> Envs, paths |-> Paths, retryrw |-> RetryRewrites, retrypath |-> PathA,
                                           rx |-> { [rr |-> r, pattern |-> RxPattern(r), subst |-> RxSubst(r)] : r \in RxMenu \ {"none"} }])>>)
 ====
